@@ -52,4 +52,15 @@ func indexB(s string, c byte) int {
 //@   ensures content: b.String() == old(b.String()) + s
 //@   ensures noerr:   err == nil && n == len(s)
 
+// hasPrefix / hasSuffix: spec functions (value form).
+func hasPrefix(s, p string) bool { return len(s) >= len(p) && s[:len(p)] == p }
+func hasSuffix(s, p string) bool { return len(s) >= len(p) && s[len(s)-len(p):] == p }
+
+//@ extern func strings.HasPrefix(s string, prefix string) (r bool)
+//@   pure
+//@   ensures spec: r == hasPrefix(s, prefix)
+//@ extern func strings.HasSuffix(s string, suffix string) (r bool)
+//@   pure
+//@   ensures spec: r == hasSuffix(s, suffix)
+
 var _ = strings.IndexByte
